@@ -57,6 +57,11 @@ Section WithMerge.
   Definition determine_exponent (mult seg cur : N) (lvl : nat) : nat :=
     det_exp_aux mult seg (cur * mult) lvl 64.
 
+  (* the factor the code works with: CompactionLevelMultiplier below 2 is raised to 2
+     (store_compact.go, repair of F40: with a factor of 1 the loop of determineExponent
+     never ends - in this model: the fuel decides, det_exp_mult_one_never_stops) *)
+  Definition eff_mult (m : N) : N := if N.ltb m 2 then 2%N else m.
+
   (* walk from the newest segment (end of list) to the oldest *)
   Fixpoint cps_loop (mult : N) (maxseg : nat) (rsizes : list N) (idx : nat)
            (size_so_far cur_level_size : N) (cur_level num_in_level : nat)
@@ -81,7 +86,7 @@ Section WithMerge.
     else if Nat.ltb (length sizes) maxseg then None
     else
       let '(start, cur_level_size) :=
-        cps_loop mult maxseg (rev sizes) (pred (length sizes)) new_data new_data 0 1 None in
+        cps_loop (eff_mult mult) maxseg (rev sizes) (pred (length sizes)) new_data new_data 0 1 None in
       match start with
       | Some (S i) =>
           if N.ltb 0 pn then
